@@ -500,7 +500,20 @@ func ltRoundTrip(toks []string) string {
 			}
 		}
 	}
-	return fmt.Sprintf("enc=%s dec=%s enc2=%s gz=%s cp=%s", hexBytes(enc), decS, enc2S, gzS, cpS)
+	// an encoder that has written a document before writes this one just the same
+	againS := "same"
+	var two bytes.Buffer
+	if e, err := laptimer.NewEncoder(&two); err == nil {
+		if err := e.Encode(laptimer.NewDB()); err == nil {
+			n := two.Len()
+			if err := e.Encode(db); err != nil {
+				againS = "err"
+			} else if !bytes.Equal(two.Bytes()[n:], enc) {
+				againS = "differs"
+			}
+		}
+	}
+	return fmt.Sprintf("enc=%s dec=%s enc2=%s gz=%s cp=%s again=%s", hexBytes(enc), decS, enc2S, gzS, cpS, againS)
 }
 
 // ltDecodeOp: dec <hex bytes> => ok <dump> | err
